@@ -29,7 +29,7 @@ ASSUMPTIONS = ["MultislicePtychographicOperator is exercised with one slice only
                "position correction, probe centre-of-mass correction and probe orthogonalisation are not part of the property and are switched off",
                "positions are kept off the x.5 rounding boundary of the probe window"]
 QUICK = dict(n=3000, time=40)
-THOROUGH = dict(n=40000, time=240, shards=16)
+THOROUGH = dict(n=320000, time=480, shards=16)
 
 FOURIER = ["reg", "mixed-warmup", "multislice", "sim-warmup", "sim", "mixed"]
 FIXED = ["reg", "mixed-warmup", "mixed", "sim-warmup", "sim", "sim-alt", "multislice1", "reg-oversize"]
